@@ -416,7 +416,7 @@ class _MapHelperInterp(Interp):
         return super().apply(fv, args, kwargs, node)
 
 
-_POOLS = ("Pool", "NonDaemonicPool", "ThreadPool")
+_POOLS = ("Pool", "NonDaemonicPool", "ThreadPool", "ProcessPoolExecutor", "ThreadPoolExecutor")
 _MAPS = ("starmap", "map", "imap", "imap_unordered", "apply_async", "starmap_async", "map_async", "apply", "submit")
 
 
